@@ -33,6 +33,41 @@ pub fn emit_struct(r#struct: &StructInner) -> String {
     result
 }
 
+/// Emits `struct` once, preceded by the structs of the same file that it contains and that
+/// have not been emitted yet: a struct may be declared after the struct that uses it.
+pub fn emit_struct_once(
+    r#struct: &StructInner,
+    local: &[String],
+    emitted: &mut Vec<String>,
+    result: &mut String,
+) {
+    let ident = r#struct.ident.to_string();
+    if emitted.contains(&ident) {
+        return;
+    }
+    emitted.push(ident);
+    for field in &r#struct.fields {
+        if let idlc_mir::Type::Struct(inner) = &field.val.0 {
+            let inner = inner.as_ref();
+            if local.contains(&inner.ident.to_string()) {
+                emit_struct_once(inner, local, emitted, result);
+            }
+        }
+    }
+    result.push_str(&emit_struct(r#struct));
+}
+
+/// The names of the structs that `mir`'s own file declares.
+pub fn local_structs(mir: &idlc_mir::Mir) -> Vec<String> {
+    mir.nodes
+        .iter()
+        .filter_map(|node| match node.as_ref() {
+            idlc_mir::Node::Struct(s) => Some(s.as_ref().ident.to_string()),
+            _ => None,
+        })
+        .collect()
+}
+
 pub fn emit_const(r#const: &Const) -> String {
     let ident = r#const.ident.to_string();
     let value = const_expression(r#const.r#type, &r#const.value);
